@@ -60,6 +60,22 @@ def build(cfg):
 
 
 def make_dataset(cfg):
+    if cfg.get("raw_path"):
+        # the raw 4D data live in a file (AutoSerialize zip) and the dataset remembers its path, so that
+        # Ptychography.from_file can reload and re-preprocess it by itself (save_raw_data=False route)
+        from quantem.core.datastructures.dataset4dstem import Dataset4dstem
+        from quantem.diffractive_imaging.dataset_models import PtychographyDatasetRaster
+        r0, r1 = tuple(cfg["roi"])
+        inten, _ = pt.tiny_intensities(tuple(cfg["scan"]), tuple(cfg["roi"]), cfg.get("seed", 0), 2)
+        ds = Dataset4dstem.from_array(array=inten, sampling=(2.0, 2.0, 1.0 / r0, 1.0 / r1), units=("A", "A", "A^-1", "A^-1"))
+        if not os.path.exists(cfg["raw_path"]):
+            ds.save(cfg["raw_path"], mode="o")
+        ds.file_path = cfg["raw_path"]
+        pd = PtychographyDatasetRaster.from_dataset4dstem(ds, verbose=0, learn_descan=cfg.get("learn_descan", True),
+                                                          learn_scan_positions=cfg.get("learn_positions", True))
+        pd.preprocess(com_fit_function="constant", plot_rotation=False, plot_com=False, probe_energy=pt.PROBE_ENERGY,
+                      force_com_rotation=0, force_com_transpose=False, vectorized=True)
+        return pd
     return pt.make_dataset(tuple(cfg["scan"]), tuple(cfg["roi"]), cfg.get("seed", 0), 2,
                            learn_descan=cfg.get("learn_descan", True),
                            learn_scan_positions=cfg.get("learn_positions", True))
@@ -383,8 +399,8 @@ def save_and_reload(p, cfg, scratch, tag="ck"):
         warnings.simplefilter("ignore")
         with contextlib.redirect_stdout(io.StringIO()):
             p.save(path, mode="o", store=cfg["store"], save_raw_data=bool(cfg["raw"]), verbose=0)
-            if cfg["raw"]:
-                r = Ptychography.from_file(path)
+            if cfg["raw"] or cfg.get("raw_path"):
+                r = Ptychography.from_file(path)      # with the data in the file, or reloading them from their own file
             else:
                 r = Ptychography.from_file(path, dset=make_dataset(cfg))
     names_after = sorted(r.__dict__.keys())
